@@ -22,11 +22,11 @@ def run(ctx):
               "Per instantiation: seeded random extent vectors (every axis >= 2, the single-cell grid included); fields of non-affine random "
               "values with exponents up to 2^100 (2^900 when both types are double) and one-hot fields; coordinates: lattice points, cell centres, "
               "one ulp either side of lattice points, the top of the last cell, dyadic and uniform random; with a clamp beneath also far outside "
-              "the grid (< 2^32).  Oracle: exact sum in binary128 over the storage layer's own lattice values; |got-exact| <= "
+              "the grid (up to 9*10^18, incl. k*2^32 + small).  Oracle: exact sum in binary128 over the storage layer's own lattice values; |got-exact| <= "
               "2*gamma_k(u)*sum|w||v| + tiny, k = 2N+2^N+2, u the coarser unit roundoff; bit-equality with the stored value at lattice points; "
               "result inside the corner range.  In addition, over an index-recording probe storage with extents up to 2^20 per axis (no memory), the 2^N "
               "flat indices an interpolated lookup READS must be exactly those of the cell containing x (neighbour enumeration at coordinates no "
               "array-backed field reaches).  non-trivial: strictly interior fraction on >= 1 axis on non-affine data; distinct = hash of "
               "(instantiation, field, cell)"),
-        assumptions=["stored magnitudes keep 2^27 headroom below overflow of the narrower type", "real coordinates >= 2^32 are excluded: the index conversion itself is undefined there",
+        assumptions=["stored magnitudes keep 2^27 headroom below overflow of the narrower type", "real coordinates >= 2^63 are excluded: the conversion to the index type is undefined from 2^64 on",
                      "the storage-order layer beneath is trusted only to the extent that the same layer view supplies the corner values to the oracle"])
